@@ -395,6 +395,11 @@ def r7(F, R, rid="C07-R7"):
             if path_ends(t["callee"].get("path", ""), "RunningMean::reset"):
                 recv = x.value(t["args"][0])
                 resets |= {n[2] for n in vt_walk(recv) if n[0] == "field"}
+        # or the field is overwritten with a fresh RunningMean (directly, or through `*self = Collector { .., ..Collector::new() }`)
+        for f_ in mean_fields:
+            for (wb, wbb, wst, wv, whow) in K.field_writers(F, "AcceptanceRateCollector", f_):
+                if wb.path == x.path and wv[0] == "call" and path_ends(wv[1], "RunningMean::new") and all(x.dominates(wbb, e_) for e_ in x.exits()):
+                    resets.add(f_)
         if set(mean_fields) <= resets:
             R.ok(rid, x.path + ":reset", "%s @%s" % (x.path, x.loc()), "register_init resets %s" % sorted(resets))
         else:
